@@ -122,7 +122,7 @@ Proof.
   - (* CharsLeaf *)
     intros j nj Hj Hm. destruct (Holdnew _ _ Hj) as [Ho| ->].
     + eapply (charsleaf_old T w w' self c n k); eauto.
-    + rewrite Hc' in Hj. injection Hj as <-. rewrite Hleaf. reflexivity.
+    + rewrite Hc' in Hj. injection Hj as <-. left. exact Hleaf.
   - (* IndexExact *)
     intros m x Hx p i. change (model_at w' m) with (model_at w m) in Hx. rewrite (I4 m x Hx p i).
     destruct (w_nodes w i) as [ni|] eqn:Ei.
